@@ -157,7 +157,7 @@ def entry_points(rng):
     def tools(a, b):
         A, B = PersLandscapeApprox(dgms=[a], start=0.0, stop=10.0, num_steps=11), PersLandscapeApprox(dgms=[b], start=1.0, stop=9.0, num_steps=5)
         return [list(death_vector([a])), vectorize(PersLandscapeExact(dgms=[a]), start=0.0, stop=10.0, num_steps=7).values, [s.values for s in snap_pl([A, B])],
-                lc_approx([A, B], [1.0, -2.0]).values, average_approx([A, B]).values, PersistenceLandscaper(start=0.0, stop=10.0, num_steps=6).fit_transform([a])]
+                lc_approx([A, B], [1.0, -2.0]).values, average_approx([A, B]).values, PersistenceLandscaper(hom_deg=0, start=0.0, stop=10.0, num_steps=6).fit_transform([a])]
     add("landscape tools and transformer", tools, lambda: (dg(), dg()))
 
     # landscapes themselves as arguments (shared operands): on a common grid, on different grids, exact ones
@@ -206,8 +206,8 @@ def entry_points(rng):
 
     # a transformer that was never fitted: transforming one collection must not change what it returns for another
     def unfitted_transformer(a, b):
-        tr = PersistenceLandscaper(num_steps=7)
-        fresh = lambda X: PersistenceLandscaper(num_steps=7).transform([X])
+        tr = PersistenceLandscaper(hom_deg=0, num_steps=7)
+        fresh = lambda X: PersistenceLandscaper(hom_deg=0, num_steps=7).transform([X])
         r = [tr.transform([a]), tr.transform([b]), tr.transform([a])]
         return [("transform(A) on a never-fitted transformer vs a fresh one", r[0], fresh(a)), ("transform(B) after transform(A) vs a fresh transformer", r[1], fresh(b)),
                 ("transform(A) again", r[2], fresh(a))]
